@@ -6,6 +6,21 @@ Statements are about `Tahoe.Introducer.gotStream` / `gotBatch` / `processAnn`, t
 `IntroducerClient.got_announcements` (with the repaired batch loop, `fixes/C34-batch-except.diff`)
 and `_process_announcement`, tied to the code by `harness/props/c34.py`.
 -/
+/-!
+## Coverage of the statement
+
+| clause of C34 | proved for the model by |
+|---|---|
+| a client accepts an announcement only if its signature verifies | `accepted_implies_verified_and_attributed` (every stored and every delivered announcement; the signature verifies for exactly the message bytes that decode to it — seed C34-a) |
+| and attributes it to the key that signed it | same theorem (filed under the verifying key and the announcement's own service name), `accepted_implies_signed_by_key_owner` (under `Unforgeable`), `respelling_is_irrelevant` (identity is the verifying key, not the spelling of the key string — seed C34-c) |
+| for each (service, key) it never replaces a stored announcement with one carrying an equal or lower sequence number, whatever stream it receives | `replace_requires_higher_seqnum` (one step, any state: also missing / non-integer new seqnums cannot replace a numbered one — seed C34-b), `seqnum_monotone` (any stream of batches), `seqnum_rule_per_verifying_key` (whatever spellings the stream uses) |
+| a bad announcement does not stop the others in the same batch | `bad_one_does_not_stop_batch`, `batch_is_sequential` — for the repaired loop (`fixes/C34-batch-except.diff`, committed in /repo) |
+| quantifier: seeded streams from several keys: valid, forged, replayed, reordered, missing / non-integer seqnums | theorems are over arbitrary lists of batches of arbitrary wire tuples |
+
+Assumed, not proved: Ed25519 (`Unforgeable`); UTF-8 / JSON decoding and the reads made of the
+decoded object (parameter `parse`); base32 / key decoding (parameter `dec`).  Not modelled: late
+`subscribe_to` replay, the announcement cache file, announcements containing NaN.
+-/
 namespace Tahoe.C34
 open Tahoe.Introducer
 open Tahoe.GridManager (SymSig symVerify Unforgeable)
@@ -92,6 +107,46 @@ example :
     let w : Nat → Wire Nat SymSig Nat := fun m => .tuple m (.bytes (.signed 1 m)) (.key 1)
     lookup (0, 1) (gotStream symVerify parse [0] ⟨[], []⟩ [[w 5, w 7], [w 5, w 4]]).store
       = some ⟨7, .name 0, false, .int 7⟩ := by decide
+
+/-- The sequence-number rule is applied per *verifying key*, not per spelling of the key string:
+    whatever decoding `dec` of key strings is in force, and however the tuples of the further stream
+    spell their keys, once the index `(service, k)` of verifying key `k` holds an announcement with
+    integer sequence number `m` it afterwards holds that announcement or one with a strictly greater
+    integer sequence number. -/
+theorem seqnum_rule_per_verifying_key {Sp : Type} [DecidableEq PK] (dec : Sp → KeyField PK)
+    (verify : PK → Sig → Msg → Bool) (parse : Msg → Option Ann) (subs : List Nat) (st : State PK)
+    (batches : List (List (SpelledWire Sp Sig Msg))) (svc : Nat) (k : PK) (a : Ann) (m : Int)
+    (hst : lookup (svc, k) st.store = some a) (ha : a.seq = .int m) :
+    ∃ b n, lookup (svc, k) (gotStreamS dec verify parse subs st batches).store = some b ∧
+      b.seq = .int n ∧ (b = a ∨ m < n) :=
+  seqnum_monotone verify parse subs st _ (svc, k) a m hst ha
+
+/-- Re-spelling key strings without changing the key they decode to changes nothing: the client's
+    state is a function of the decoded verifying keys only. -/
+theorem respelling_is_irrelevant {Sp : Type} [DecidableEq PK] (dec : Sp → KeyField PK) (ren : Sp → Sp)
+    (hren : ∀ sp, dec (ren sp) = dec sp)
+    (verify : PK → Sig → Msg → Bool) (parse : Msg → Option Ann) (subs : List Nat) (st : State PK)
+    (batches : List (List (SpelledWire Sp Sig Msg))) :
+    gotStreamS dec verify parse subs st (batches.map (fun b => b.map (respell ren))) =
+      gotStreamS dec verify parse subs st batches := by
+  unfold gotStreamS
+  rw [map_decode_respell dec ren hren]
+
+/-- spellings are strings; "K1" decodes to key 1 and so does "k1" (a liberal decoder, as in seed
+    C34-c): seqnum 5 arrives under "k1", then a stale seqnum 4 under "K1" — refused, one identity.
+    With the strict decoder of the unchanged tree "K1" is not base32 and the tuple is skipped. -/
+example :
+    let parse : Nat → Option Ann := fun m => some ⟨m, .name 0, false, .int m⟩
+    let liberal : String → KeyField Nat := fun s => if s = "k1" ∨ s = "K1" then .key 1 else .badB32
+    let strict : String → KeyField Nat := fun s => if s = "k1" then .key 1 else .badB32
+    let ws : List (List (SpelledWire String SymSig Nat)) :=
+      [[.tuple 5 (.bytes (.signed 1 5)) "k1"], [.tuple 4 (.bytes (.signed 1 4)) "K1"]]
+    (gotStreamS liberal symVerify parse [0] ⟨[], []⟩ ws).store = [((0, 1), ⟨5, .name 0, false, .int 5⟩)] ∧
+    (gotStreamS strict symVerify parse [0] ⟨[], []⟩ ws).store = [((0, 1), ⟨5, .name 0, false, .int 5⟩)] ∧
+    (∀ sp, liberal ((fun s => if s = "K1" then "k1" else s) sp) = liberal sp) := by
+  refine ⟨by decide, by decide, ?_⟩
+  intro sp
+  by_cases h : sp = "K1" <;> simp [h]
 
 /-- A bad announcement does not stop the others in the same batch (repaired loop): a batch with a
     bad announcement anywhere in it leaves the client in the same state as the batch without it —
